@@ -788,6 +788,17 @@ class World:
             if isinstance(inner, types.FunctionType) and inner.__module__ in self.ns:
                 return self._clone(inner)
             return v
+        if isinstance(v, functools.partial) and isinstance(v.func, types.FunctionType) and v.func.__module__ in self.ns:
+            # module-level partials of repository functions (ones = partial(wrap_func_shape_as_first_arg, klass=Ones)): clone the
+            # function and hand expression classes bound as arguments over as their proxies
+            f = self._clone(v.func)
+
+            def conv(a):
+                return self.space.proxy(a) if self.space is not None and self.space.is_expr_class(a) else a
+
+            if f is not v.func or any(conv(a) is not a for a in list(v.args) + list(v.keywords.values())):
+                return functools.partial(f, *[conv(a) for a in v.args], **{k: conv(a) for k, a in v.keywords.items()})
+            return v
         if not isinstance(v, types.FunctionType) or v.__module__ not in self.ns:
             return v
         if v.__globals__ is not self.mods[v.__module__].__dict__:
@@ -828,6 +839,13 @@ class World:
             for k in fromlist:
                 if k not in over and isinstance(getattr(mod, k, None), type) and getattr(mod, k) in getattr(self, "cloned_classes", {}):
                     over[k] = self.cloned_classes[getattr(mod, k)]
+            for k in fromlist:
+                # a name re-exported by a package that is not itself cloned (from dask_array.creation import ones): use the clone
+                # of the function it denotes
+                if k not in over and hasattr(mod, k):
+                    c = self._clone(getattr(mod, k))
+                    if c is not getattr(mod, k):
+                        over[k] = c
             if self.space is not None:
                 from .nodes import sym_tokenize
 
